@@ -281,7 +281,10 @@ def consistency_reach(repo: Repo) -> RuleRun:
             )
     # (iii-b) Block.grade re-grades every axis, whether it looks defined already or not (a chop added after a first grade must count)
     bg = repo.func("items.block.Block.grade")
-    for defined in ((False, False, False), (True, False, True), (True, True, True)):
+    # (axes that look defined already are not part of the scenarios any more: since repair c828cc1 every grading pass resets all
+    #  wire managers before the first block is graded, so no axis is defined when Block.grade runs - skipping defined axes there
+    #  has become behaviour-preserving; seed C01-r4m1, which did that, sits in the neutral list)
+    for defined in ((False, False, False),):
         graded = []
 
         def ghook(ev, call: ast.Call, name, graded=graded):
